@@ -50,6 +50,11 @@ CHECKS = {
     note=BASE + "completeness of the parent/child links against the chess rules is an explicit hypothesis (AddOk) checked on the implementation; extendBook's search loop and books of >= 2^31-2 nodes are not covered.",
     technique="Lean 4 proof (invariant preservation over a ranked DAG, refinement of the three propagation passes) + differential of every changed node field after every operation + defining equations re-evaluated on the implementation's fields",
     design="6/C19, notes/C19.md"),
+ "C20": dict(
+    text="Lean theorems (Props/C20.lean, 20) about a total executable mirror of the solver (building API with every assert/overflow case as an explicit error, arc consistency with proven-sufficient fuel, backtracking search, the four value preferences): solve returns sat only with an assignment satisfying every domain and constraint, unsat only if none exists, the verdict does not depend on the preferences; bit-set primitive specifications incl. the empty-set -1 convention; the supported limits are a decidable predicate equivalent to 'the build succeeds'.",
+    note=BASE + "BitSet<192> modelled as a boolean list; BitUtil::firstBit/lastBit/bitCount modelled as lowest/highest/count (tied separately by Bridge/Bits); int assumed 32-bit; harness pre-checks mirror each assert.",
+    technique="Lean 4 proof (soundness + completeness of arc consistency and search, fuel sufficiency) + differential on random/structured systems + independent satisfiability oracle on the implementation's answers",
+    design="6/C20, notes/C20.md"),
  "C08": dict(
     text="Lean theorems (Props/C08.lean + Bridge/TT.lean): the index/field/score kernels are regenerated from the C++ source by the cxx2lean translator on every run and proved equal to the hand model (17 Bridge theorems); bucket index aligned and in range for every size >= 512 and every 64-bit key; field layout disjoint and lossless; xor validation makes any validating pair of words bit-identical to one unit record (relaxed-atomic over-approximation); ply shift exact; hash buckets disjoint from the resident-tablebase bytes; insert writes only inside its bucket. The universally quantified part is proved; the tie to the C++ is a differential run.",
     note=BASE + "no 64-bit key/xor coincidences (explicit hypothesis); relaxed atomics modelled as 'a load returns some previously written value of that word'; harness reads private members.",
